@@ -25,6 +25,7 @@ var c18Args = []struct{ s, class string }{
 	{"*", "glob"}, {"?", "glob"}, {"[ab]", "glob"}, {"~", "tilde"}, {"{a,b}", "brace"}, {"a;b", "semicolon"}, {"a&b", "ampersand"}, {"a|b", "pipe"}, {">f", "redirect"}, {"<f", "redirect"},
 	{"#c", "hash"}, {"-n", "dash"}, {"--", "dash"}, {"it's", "squote"}, {"(x)", "paren"}, {"!h", "bang"}, {"a=b", "equals"}, {"a\tb", "tab"}, {"l1\nl2", "newline"},
 	{"$HOME", "dollar"}, {"$(touch CANARY)", "dollar"}, {"`touch CANARY`", "backquote"}, {"say \"hi\"", "dquote"}, {"back\\slash", "backslash"}, {"end\\", "backslash"},
+	{"%d", "percent"}, {"100%", "percent"}, {"50%%", "percent"}, {"%s%s", "percent"}, {"a%20b", "percent"}, {"^", "caret"}, {"a^b", "caret"}, {"@x", "at"}, {"+", "plus"}, {",", "comma"}, {":", "colon"}, {"a,b:c+d", "punct"},
 }
 
 type c18Call struct {
@@ -37,7 +38,7 @@ type c18Call struct {
 
 func TestC18(t *testing.T) {
 	r, e := start(t, "C18",
-		"programs calling probe executables: argument lists of 0-5 strings over the C08 classes (empty, blanks, glob, ~, {a,b}, ; & | > < # - quotes, parentheses, !, =, tab, embedded newline, $, $(cmd), backquote, double quote, backslash), each given as literal, variable, concatenation, function result or run-time input; pipelines of 1-3 probes; exit statuses 0-255; calls as statements (output must reach stdout) and as o, e, c := / var o, e, c = / o, e, c = captures (output must not reach stdout); program names as identifiers (found on PATH) and as interpreted/raw string literal paths, also paths containing a blank, '*', ';' or a leading dash in a directory name. Oracle: each probe's argv log equals the intended argument list exactly; stdout composition proves the pipe order; captured output and status are exact; no stray file appears. Non-trivial = two or more arguments of different non-neutral classes, or a pipeline of >= 2 with a non-zero status; distinct by program + stdin.",
+		"programs calling probe executables: argument lists of 0-5 strings over the C08 classes (empty, blanks, glob, ~, {a,b}, ; & | > < # - quotes, parentheses, !, =, %, ^, @, tab, embedded newline, $, $(cmd), backquote, double quote, backslash), each given as literal, variable, concatenation, function result or run-time input; pipelines of 1-3 probes; exit statuses 0-255; calls as statements (output must reach stdout) and as o, e, c := / var o, e, c = / o, e, c = captures (output must not reach stdout); program names as identifiers (found on PATH) and as interpreted/raw string literal paths, also paths containing a blank, '*', ';' or a leading dash in a directory name. Oracle: each probe's argv log equals the intended argument list exactly; stdout composition proves the pipe order; captured output and status are exact; no stray file appears. Non-trivial = two or more arguments of different non-neutral classes, or a pipeline of >= 2 with a non-zero status; distinct by program + stdin.",
 		[]string{"arguments containing $, backquote, double quote or backslash are supplied through input() or variables read at run time (as source literals they fall under the listed C08 finding)", "probe output never ends in an empty line (capture removes trailing newlines by definition)", "Bash target only"})
 	defer r.Flush()
 	_ = e
